@@ -38,6 +38,28 @@ def get_reserved_words():
     return reserved
 
 
+# keywords that at least one of the parsers does not read as a name
+NOT_NAME_KEYWORDS = {
+    'ALL', 'ALTER', 'AND', 'ANOMALY', 'AS', 'ASC', 'BEGIN', 'BETWEEN', 'BINARY', 'CASE', 'CAST', 'CHARACTER',
+    'CHATBOT', 'COLLATE', 'COLLATION', 'COLUMNS', 'COMMIT', 'COMMITTED', 'CONVERT', 'CREATE', 'CROSS', 'DELETE',
+    'DESC', 'DESCRIBE', 'DETECTION', 'DISTINCT', 'DROP', 'ELSE', 'END', 'ENGINE', 'ENGINES', 'EVALUATE',
+    'EVERY', 'EXCEPT', 'EXISTS', 'EXPLAIN', 'FALSE', 'FINETUNE', 'FOR', 'FROM', 'FULL', 'FUNCTION', 'GLOBAL',
+    'HAVING', 'IF', 'IN', 'INDEX', 'INNER', 'INSERT', 'INTERSECT', 'INTO', 'IS', 'ISOLATION', 'JOB', 'JOIN',
+    'KNOWLEDGE_BASE', 'LEFT', 'LEVEL', 'LIKE', 'LIMIT', 'ML_ENGINE', 'NOT', 'NULL', 'OFFSET', 'ON', 'ONLY',
+    'OR', 'OUTER', 'OVER', 'PERSIST', 'PERSIST_ONLY', 'PLUGINS', 'PRIMARY_KEY', 'PROCEDURE', 'PROJECT', 'READ',
+    'REPEATABLE', 'REPLACE', 'RIGHT', 'ROLLBACK', 'SCHEMAS', 'SEARCH_PATH', 'SELECT', 'SERIALIZABLE', 'SESSION',
+    'SET', 'SHOW', 'SKILL', 'START', 'TABLE', 'THEN', 'TRANSACTION', 'TRIGGER', 'TRUE', 'UNCOMMITTED', 'UNION',
+    'UPDATE', 'USE', 'USING', 'VALUES', 'VARIABLES', 'WARNINGS', 'WHEN', 'WHERE', 'WINDOW', 'WITH', 'WRITE'
+}
+
+
+def name_to_string(name):
+    # for the places where a name is printed without quotes whenever it can be read back so
+    if not no_wrap_identifier_regex.fullmatch(name) or name.upper() in NOT_NAME_KEYWORDS:
+        name = f'`{name}`'
+    return name
+
+
 class Identifier(ASTNode):
     def __init__(self, path_str=None, parts=None, *args, **kwargs):
         super().__init__(*args, **kwargs)
